@@ -33,7 +33,7 @@ def gen(seed, tier, index):
     fx = fixtures()
     if fx and index < 2 * len(fx):
         return gen_fixture(seed, fx[index % len(fx)], index)
-    faulty = (index % 4 == 3)
+    faulty = (index % 2 == 1)
     g = StoreW(seed, "C05", profile="fault" if faulty else "seq", big=(index % 5 == 0))
     r = g.r
     g.begin()
@@ -54,15 +54,23 @@ def gen(seed, tier, index):
 MUTATING = ("C_CreateObject", "C_CopyObject", "C_SetAttributeValue", "C_DestroyObject", "C_GenerateKey", "C_GenerateKeyPair", "C_UnwrapKey", "C_DeriveKey")
 
 def add_faults(g):
-    """1-3 faults inside mutating calls on token objects; each followed (in the plan) by nothing special: the final restart reads everything back"""
+    """1-3 mutating calls get a fault; the position inside the call's I/O sequence is chosen by prepare() after a counting pass.
+    Candidates are drawn group-uniformly over (call, mechanism, token?) so that rarely generated paths (each generate/derive/unwrap helper commits on
+    its own) get the same share of faults as C_CreateObject."""
     r = g.r; ops = g.ops[0]
-    cands = [i for i, op in enumerate(ops) if op.get("f") in MUTATING]
-    r.shuffle(cands)
-    for i in cands[: r.randint(1, 3)]:
-        fs = r.choice(["write", "write", "write", "ftruncate", "open", "open", "lock", "unlock", "read", "remove", "fstat", "opendir", "lstat"])
-        err = {"write": ["ENOSPC", "EIO", "EDQUOT"], "ftruncate": ["EIO", "EINTR"], "open": ["EACCES", "EMFILE", "ENOSPC", "EINTR"], "lock": ["ENOLCK", "EINTR"], "unlock": ["ENOLCK"], "read": ["EIO"],
-               "remove": ["EACCES", "EBUSY", "EIO"], "fstat": ["EIO"], "opendir": ["EMFILE", "EACCES"], "lstat": ["EIO"]}[fs]
-        g.faults.append({"tid": 0, "op": i, "fs": fs, "nth": r.choice([0, 0, 0, 1, 1, 2, 3, 5]), "err": r.choice(err), "partial": r.choice([0, 0, 7, 100])})
+    groups = {}
+    for i, op in enumerate(ops):
+        if op.get("f") not in MUTATING: continue
+        m = op.get("mech", {}).get("m") if isinstance(op.get("mech"), dict) else None
+        tok = any(x[0] == K.CKA_TOKEN and len(x) > 2 and x[2] == "01" for x in (op.get("tmpl") or []) + (op.get("priv") or []) + (op.get("pub") or []))
+        if op["f"] in ("C_CreateObject", "C_GenerateKey", "C_GenerateKeyPair", "C_UnwrapKey", "C_DeriveKey") and not tok: continue   # session objects do no file I/O
+        groups.setdefault((op["f"], m), []).append(i)
+    keys = sorted(groups, key=str); r.shuffle(keys)
+    g.extra["fault_candidates"] = sorted(r.choice(groups[k]) for k in keys[: r.randint(1, 3)])
+
+def prepare(plan, z):
+    from gen import place_faults
+    return place_faults(plan, z, plan["seed"])
 
 def gen_fixture(seed, path, index):
     fx = json.load(open(path))
